@@ -25,6 +25,14 @@ EXTRA = {
         "text streams with newline='\\n' semantics; universal-newline translation of files is why '\\r' is excluded "
         "from well-formed data; file encoding is the platform's (UTF-8 here)",
         "no display format attached to any column",
+        "\"every single-character separator that does not occur in the data\" is read as: occurs in no WRITTEN cell "
+        "text (CellsClean) — the `**name` cell, the destination line, names, units and the rendered numerals and "
+        "timestamps: `*`, a blank, digits, `.`, `-`, `+`, `e`, `:` are therefore inadmissible for most tables, and the "
+        "real code does fail there (negative corpus)",
+        "text cells are strings: a missing text (None / NaN / pd.NA in a text column) is outside the well-formed tables "
+        "(the writer prints str(x); pd.NA there makes it raise TypeError — out of domain, seen by C04's histories)",
+        "timestamps carry no UTC offset (a column with one offset does round-trip in the real code: a harmless gap of "
+        "the predicate) and at most microsecond resolution (finer digits are dropped by the writer: modelled, outside WF)",
         "\"writing leaves the written tables unmodified\" has no theorem (model values are immutable): decided by the "
         "harness alone, by a snapshot of every written table (header, dtypes, values, index, display formats, origin) "
         "before and after",
